@@ -49,6 +49,9 @@ def enc(v):
     if v is False or isinstance(v, np.bool_):
         return 'F'
     if isinstance(v, enum.Enum):
+        if isinstance(v.value, str):
+            # an Enum with string values is translated as constant instances with `value` and `name`
+            return 'o' + type(v).__name__ + '{value=' + enc(v.value) + 'name=' + enc(v.name) + '}'
         return f'e{type(v).__name__}:{v.value};'
     if isinstance(v, (int, np.integer)):
         return f'i{int(v)};'
@@ -60,6 +63,8 @@ def enc(v):
         return 's' + hexs(v) + ';'
     if isinstance(v, np.ndarray):
         return 't(' + ''.join(enc(x) for x in v.tolist()) + ')'
+    if isinstance(v, tuple) and hasattr(v, '_fields'):
+        return 'o' + type(v).__name__ + '{' + ''.join(f'{k}={enc(getattr(v, k))}' for k in v._fields) + '}'
     if isinstance(v, (tuple, list)):
         return 't(' + ''.join(enc(x) for x in v) + ')'
     if isinstance(v, (set, frozenset)):
@@ -199,6 +204,16 @@ def same(v, node):
             r = same(x, m[ck])
             if r:
                 return f'[{ck}]: {r}'
+        return None
+    if isinstance(v, tuple) and hasattr(v, '_fields'):
+        if k != 'o' or node[1] != type(v).__name__:
+            return f'named tuple {type(v).__name__} vs {k}'
+        if set(v._fields) != set(node[2]):
+            return f'attributes {sorted(v._fields)} vs {sorted(node[2])}'
+        for f in v._fields:
+            r = same(getattr(v, f), node[2][f])
+            if r:
+                return f'.{f}: {r}'
         return None
     if isinstance(v, (tuple, list, np.ndarray)):
         if k != 't':
